@@ -1049,7 +1049,13 @@ fn shot_step(cx: &mut Ctx, s: &Slot, slot: u8, kind: &Shot, twin: bool) {
                 (Ok(a), Ok(b)) => a.full_eq(b),
                 _ => false,
             };
-            if !same || rd.trace.delivered != all.len() {
+            if same && rd.trace.delivered != all.len() {
+                // Stopped before the end, yet the hash of the prefix happens to
+                // coincide with the hash of the whole: on *this* input the
+                // property's statement holds, so this is a probe, not a report.
+                cx.probe("shot.stream_stopped_early_same_hash");
+            }
+            if !same {
                 cx.fail(
                     check,
                     "hash_stream",
